@@ -4,13 +4,13 @@
   (Lemmas/FloatModelOrder.lean): a spinner's / slider's `max(x, 0)` is never below zero, and is never NaN.
 -/
 import RosuModel.Props.C14
-import RosuModel.Lemmas.FloatModelOrder
+import RosuModel.Lemmas.FloatModelCompare
 namespace Rosu.C14
 open Rosu
 
-theorem max_zero_nonneg_ieee {α : Type} [Scalar α] [FM.IeeeOrd α] (x : α) :
+theorem max_zero_nonneg_ieee {α : Type} [Scalar α] [FMO.IeeeOrd α] (x : α) :
     Scalar.lt (Scalar.max x 0) (0 : α) = false :=
-  max_zero_nonneg x FM.lt_irrefl FM.lt_asymm FM.lt_nan_left
+  max_zero_nonneg x FMO.lt_irrefl FMO.lt_asymm FMO.lt_nan_left
 
 /-- `max x 0` is never below 0, for IEEE doubles (spinner duration `max (end − start) 0`, slider length `max l 0`). -/
 theorem max_zero_nonneg_float (x : Float) : Scalar.lt (Scalar.max x 0) (0 : Float) = false := max_zero_nonneg_ieee x
@@ -19,10 +19,10 @@ theorem max_zero_nonneg_float32 (x : Float32) : Scalar.lt (Scalar.max x 0) (0 : 
 /-- … and in the ordinary sense: `0 <= max x 0`, and `max x 0` is a number even for a NaN `x` (IEEE maxNum). -/
 theorem max_zero_ge_float (x : Float) :
     Scalar.le (0 : Float) (Scalar.max x 0) = true ∧ Scalar.isNaN (Scalar.max x 0) = false :=
-  ⟨FM.le_max_right x 0 (by decide +kernel), FM.max_not_nan_right x 0 (by decide +kernel)⟩
+  ⟨FMO.le_max_right x 0 (by decide +kernel), FMO.max_not_nan_right x 0 (by decide +kernel)⟩
 
 theorem max_zero_ge_float32 (x : Float32) :
     Scalar.le (0 : Float32) (Scalar.max x 0) = true ∧ Scalar.isNaN (Scalar.max x 0) = false :=
-  ⟨FM.le_max_right x 0 (by decide +kernel), FM.max_not_nan_right x 0 (by decide +kernel)⟩
+  ⟨FMO.le_max_right x 0 (by decide +kernel), FMO.max_not_nan_right x 0 (by decide +kernel)⟩
 
 end Rosu.C14
